@@ -284,8 +284,11 @@ class MergedSequences(Generic[_ValueT]):
     """Slices the merged sequences."""
     if slice_.step is not None:
       raise NotImplementedError(f'step is not supported, got {slice_}')
-    start = self._index(slice_.start or 0)
-    stop = self._index(len(self) if slice_.stop is None else slice_.stop)
+    # Normalizes negative and out-of-range bounds the same way as a list does.
+    start, stop, _ = slice_.indices(len(self))
+    if start >= stop:
+      return iter(())
+    start, stop = self._index(start), self._index(stop)
     if start.seq_idx == len(self._sequences):
       return iter(())
     if start.seq_idx == stop.seq_idx:
